@@ -275,6 +275,11 @@ def check(ctx):
         r = evaluate(repo, st)
         calls = [t for t, _, _ in r.calls if is_call(t, MH)]
         if not calls:
+            if name in ("RWKernel", "MHKernel", "IWLSKernel"):
+                ctx.ob("C05.R5", st, "the Metropolis-Hastings type kernel decides acceptance "
+                                     "through mh_step", False,
+                       detail="no call of mh_step in the standard transition",
+                       stmt="mh_step not called")
             continue
         callers += 1
         ctx.call_sites += len(calls)
